@@ -3,6 +3,7 @@ import GitBugModel.Model.Dag
 import GitBugModel.Props.C02
 import GitBugModel.Model.MemClockCAS
 import GitBugModel.Gen.WritePaths
+import GitBugModel.Model.ClockFile
 /-!
 # C05 — logical clocks only move forward and dominate everything seen
 -/
@@ -274,6 +275,60 @@ example : crun { counter := 1, threads := [.idle 5, .idle 3, .inc] } [0, 1, 2, 1
     { counter := 5, threads := [.doneW 5, .doneW 3, .doneI 2] } := by decide
 
 end CAS
+
+/-! ## the clock file under concurrent use -/
+
+namespace FileFollows
+open GitBugModel.ClockFile
+
+/-- the file holds the counter whenever nobody owes a write -/
+def Inv (s : St) : Prop := s.pending = [] → s.file = s.counter
+
+theorem inv_step (s : St) (x : Step) (hr : match x with | .capture _ => False | .rename _ => False | _ => True)
+    (h : Inv s) : Inv (ClockFile.step s x) := by
+  cases x with
+  | bump t => intro hp; simp [ClockFile.step] at hp
+  | write t =>
+    simp only [ClockFile.step]
+    split
+    · intro _; rfl
+    · exact h
+  | capture t => exact absurd hr id
+  | rename t => exact absurd hr id
+
+theorem inv_run : ∀ (l : List Step) (s : St), Inv s → Repaired l → Inv (ClockFile.run s l)
+  | [], _, h, _ => h
+  | x :: xs, s, h, hrep => by
+    simp only [ClockFile.run, List.foldl_cons]
+    exact inv_run xs (ClockFile.step s x) (inv_step s x (hrep x List.mem_cons_self) h)
+      (fun y hy => hrep y (List.mem_cons_of_mem _ hy))
+
+/-- **with the repaired `Write`** (a mutex, the counter read inside it), for any number of goroutines
+and any interleaving of their counter changes and writes: once every goroutine that moved the clock
+has written, the clock file holds exactly what the clock stands at — the next process starts where
+this one stopped and hands out no time twice -/
+theorem file_follows_counter (c : Nat) (l : List Step) (hr : Repaired l) (hdone : (ClockFile.run (init c) l).pending = []) :
+    (ClockFile.run (init c) l).file = (ClockFile.run (init c) l).counter :=
+  inv_run l (init c) (fun _ => rfl) hr hdone
+
+/-- **the pinned `Write`** rendered the counter and renamed its file in two steps: two goroutines that
+increment at the same time can rename in the other order, and the file ends up behind a time that was
+handed out (kernel-checked schedule; found on the real code by `c05Concurrent`, repaired in /repo) -/
+theorem pinned_write_falls_behind :
+    let s := ClockFile.run (init 5) [.bump 0, .capture 0, .bump 1, .capture 1, .rename 1, .rename 0]
+    s.pending = [] ∧ s.counter = 7 ∧ s.file = 6 := by
+  decide
+
+example : (ClockFile.run (init 5) [.bump 0, .bump 1, .write 1, .bump 2, .write 0, .write 2]).file = 8 := by decide
+
+/-- regenerated from util/lamport/persisted_clock.go: `Write` takes its mutex (and defers the
+release) before it reads the counter, and reads it before it creates and renames the file — the one
+atomic step `file := counter` of `file_follows_counter` -/
+theorem gen_clock_write_serialised :
+    GitBugModel.Gen.WritePaths.clockWriteOrder = ["Lock", "Unlock", "Time", "TempFile", "Rename"] := by
+  decide
+
+end FileFollows
 
 /-! ## the persisted clock's read path, as found in the source -/
 
